@@ -427,6 +427,9 @@ def run_property(prop: str, tier: str, specs, *, level="model_checking", crash_i
             "model_states": res.distinct, "model_bounds": bounds,
             "histories": len(hs), "processes": sum(len(h["codes"]) for h in hs),
             "flow_trainings_validated": n_trainings,
+            "train_policy_calls_validated": sum(1 for p_ in packed for e_ in p_ if e_["ev"] in ("train_check", "train_call")),
+            "trainings_with_reset": sum(1 for p_ in packed for e_ in p_
+                                        if e_["ev"] == "train_call" and (e_.get("reset_w") or e_.get("reset_p"))),
             "schedule_model": {"configurations": sched_cfgs, "states": sched_states},
             "checkpoint_calls_validated": sum(1 for p_ in packed for e_ in p_ if e_["ev"] == "ckpt_call")
             + (sum(1 for p_ in ipacked for e_ in p_ if e_["ev"] == "ckpt_call") if ins_stats else 0),
